@@ -12,6 +12,7 @@ structural precondition of the round trip for every format string at once:
  RF9-width   every call of a fixed-width digit printer asks for a width the helper has digits for (1..2, 1..3, 1..4)
  RF2-ampm    the 12-hour clock: hour digits and AM/PM marker as printed, read back by the parser's rule, give the same
              hour -- folded over the 24 hours
+ RF9-roman   the Roman numeral printer is a proper decimal cascade for the digit helper (thousands loop, then /100 %100, /10 %10)
  RF9-ord     ordinal suffix writer and reader agree on the suffix table (st / nd / rd / th by last digits)
 """
 from core import (AnalysisBroken, strip, kids, const_of, call_args, expr_text, walk, CASTS, member_path, switch_cases, ceval, NotConst)
@@ -281,7 +282,65 @@ def check_ampm(P, R):
                   % (h, dg, m, back, len(bad), [b[0] for b in bad]))
 
 
+def check_roman(P, R):
+    """the Roman printer is a decimal cascade: thousands by repeated subtraction, then hundreds / tens / units by division.  The
+    digit helper only knows the digits 0..9, so each stage must leave less than its unit: the subtraction loop runs while
+    d >= 1000 with step 1000, and every later stage divides by a unit and reduces modulo the same unit, a tenth of the one before"""
+    rule = "RF9-roman"
+    tu = P.tu("libdut_a-strops.o")
+    fn = tu.func("ui32tostrrom")
+    hp = tu.func("__rom_pr1")
+    if fn is None or hp is None:
+        raise AnalysisBroken("ui32tostrrom / __rom_pr1 vanished")
+    R.saw(fn)
+    R.saw(hp)
+    d = fn.params[2]["d"]
+    # digits the helper handles
+    digits = set()
+    for sw in hp.switches():
+        for g in switch_cases(sw):
+            for l in g["labels"]:
+                if l["lo"] is not None:
+                    digits.update(range(l["lo"], l["hi"] + 1))
+    if digits != set(range(1, 10)):
+        R.finding(rule, hp, "digit cases", "the Roman digit helper has cases for %s, the decimal digits 1..9 are needed" % sorted(digits))
+    else:
+        R.ob(rule, "__rom_pr1 has a case for each digit 1..9", True)
+    loops = [x for x in fn.walk() if x.get("k") in ("ForStmt", "WhileStmt")]
+    if len(loops) != 1:
+        raise AnalysisBroken("%s: the thousands loop of ui32tostrrom was not recognised" % rule)
+    lp = loops[0]
+    bound = step = None
+    bop = None
+    for x in walk(lp):
+        if x.get("k") == "BinaryOperator" and x.get("op") in (">=", ">") and strip(x["c"][0]).get("k") == "DeclRefExpr" and \
+                strip(x["c"][0]).get("d") == d and const_of(x["c"][1]) is not None:
+            bound, bop = const_of(x["c"][1]), x["op"]
+        if x.get("k") == "CompoundAssignOperator" and x.get("op") == "-=" and strip(x["c"][0]).get("d") == d:
+            step = const_of(x["c"][1])
+    stages = []       # (divisor, node) from the helper calls, moduli from `d %= K`
+    for c in fn.calls("__rom_pr1"):
+        a = strip(call_args(c)[2])
+        if a is not None and a.get("k") == "BinaryOperator" and a.get("op") == "/" and strip(a["c"][0]).get("d") == d:
+            stages.append(const_of(a["c"][1]))
+        elif a is not None and a.get("k") == "DeclRefExpr" and a.get("d") == d:
+            stages.append(1)
+        else:
+            stages.append(None)
+    mods = [const_of(x["c"][1]) for x in fn.walk() if x.get("k") == "CompoundAssignOperator" and x.get("op") == "%=" and strip(x["c"][0]).get("d") == d]
+    ok = (bop == ">=" and bound is not None and bound == step and stages and stages[0] is not None and bound == 10 * stages[0] and
+          all(sv is not None for sv in stages) and all(stages[i] == 10 * stages[i + 1] for i in range(len(stages) - 1)) and stages[-1] == 1 and
+          mods == stages[:-1])
+    if ok:
+        R.ob(rule, "ui32tostrrom: while d >= %d: d -= %d; then digits d / %s with d %%= %s" % (bound, step, stages, mods), True)
+    else:
+        R.finding(rule, fn, "decimal cascade", "thousands loop `d %s %s` step %s, digit divisors %s, moduli %s: every stage must leave less than "
+                  "its unit (loop while d >= 1000 step 1000, then /100 %%100, /10 %%10, units), otherwise the digit helper is handed 10 and "
+                  "prints nothing: 2000 comes out as M" % (bop, bound, step, stages, mods), lp)
+
+
 def check(P, R, tier):
+    check_roman(P, R)
     check_pairs(P, R)
     check_width(P, R)
     check_ampm(P, R)
